@@ -471,6 +471,7 @@ feederLoop:
 
 		for i, msg := range msgs {
 			child.interceptors(msg)
+			verifGate("pc.feed", child.topic, child.partition)
 		messageSelect:
 			select {
 			case <-child.dying:
@@ -485,6 +486,7 @@ feederLoop:
 				remainingLoop:
 					for _, msg = range msgs[i:] {
 						child.interceptors(msg)
+						verifGate("pc.feed", child.topic, child.partition)
 						select {
 						case child.messages <- msg:
 						case <-child.dying:
